@@ -344,7 +344,9 @@ def instrument(mediator, job, config, standin):
         if sh_ is not None:
             cur["_wait_mark"] = len(sh_)
         return r
-    install(sh, "extract_active_global_state", extract_active)
+    light = bool(job.get("light"))
+    if not light:
+        install(sh, "extract_active_global_state", extract_active)
 
     act_orig = [None]
 
@@ -374,14 +376,16 @@ def instrument(mediator, job, config, standin):
                 wrap_activator()  # TagActivator rebinds get_event_handlers_to_run on itself after the first call
             return r
         act.__dict__["get_event_handlers_to_run"] = get_to_run
-    wrap_activator()
+    if not light:
+        wrap_activator()
 
     orig_push = sch.push_event
 
     def push(event_time, handler):
         cur["times"][hid[id(handler)]] = tq(event_time)
         return orig_push(event_time, handler)
-    install(sch, "push_event", push)
+    if not light:
+        install(sch, "push_event", push)
 
     orig_get = sch.get_succeeding_event
 
@@ -389,14 +393,16 @@ def instrument(mediator, job, config, standin):
         h = orig_get()
         cur["chosen"] = hid[id(h)]
         return h
-    install(sch, "get_succeeding_event", get)
+    if not light:
+        install(sch, "get_succeeding_event", get)
 
     orig_trash_sched = sch.trash_event
 
     def trash(handler):
         cur["trashed"].append(hid[id(handler)])
         return orig_trash_sched(handler)
-    install(sch, "trash_event", trash)
+    if not light:
+        install(sch, "trash_event", trash)
 
     orig_insert = sh.insert_into_global_state
     depth = [0]
@@ -424,7 +430,8 @@ def instrument(mediator, job, config, standin):
             leg["i"] = len(trace["legs"])
             trace["legs"].append(leg)
         return r
-    install(sh, "insert_into_global_state", insert)
+    if not light:
+        install(sh, "insert_into_global_state", insert)
 
     orig_write = ioh.write
 
@@ -435,17 +442,19 @@ def instrument(mediator, job, config, standin):
             # tracer off for the duration of the write, put them back afterwards; keep a copy of the dump file
             for obj, nm, w in installed:
                 del obj.__dict__[nm]
-            orig_a, was_inst = act_orig[0]
-            if was_inst:
-                act.__dict__["get_event_handlers_to_run"] = orig_a
-            else:
-                del act.__dict__["get_event_handlers_to_run"]
+            if act_orig[0] is not None:
+                orig_a, was_inst = act_orig[0]
+                if was_inst:
+                    act.__dict__["get_event_handlers_to_run"] = orig_a
+                else:
+                    del act.__dict__["get_event_handlers_to_run"]
             try:
                 r = orig_write(name, *args)
             finally:
                 for obj, nm, w in installed:
                     obj.__dict__[nm] = w
-                wrap_activator()
+                if act_orig[0] is not None:
+                    wrap_activator()
             rec["dump"] = True
             if dump_dir:
                 import shutil as _sh
@@ -460,6 +469,18 @@ def instrument(mediator, job, config, standin):
         trace["writes"].append(rec)
         return orig_write(name, *args)
     install(ioh, "write", write)
+
+    # every exponential energy budget of a run must be drawn at the inverse temperature of the setting (rate = beta * max(0, q))
+    lambdas = {}
+    orig_expo = random.expovariate
+
+    def expovariate(lambd):
+        lambdas[lambd] = lambdas.get(lambd, 0) + 1
+        return orig_expo(lambd)
+    if not hasattr(mediator, "_event_handlers_state"):      # (workers of the multi-process mediator draw in their own processes)
+        random.expovariate = expovariate
+    trace["expovariate_rates"] = lambdas
+    trace["beta"] = setting.beta
 
     def go():
         try:
